@@ -426,7 +426,7 @@ impl Server {
                             tx_packet_base_id: state.local_nonce & packet_id::MASK,
                             rx_packet_base_id: state.remote_nonce & packet_id::MASK,
 
-                            tx_bandwidth_limit: (self.config.endpoint_config.max_send_rate as u32).min(state.remote_max_receive_rate),
+                            tx_bandwidth_limit: (self.config.endpoint_config.max_send_rate.min(u32::MAX as usize) as u32).min(state.remote_max_receive_rate),
 
                             tx_alloc_limit: state.remote_max_receive_alloc as usize,
                             rx_alloc_limit: self.config.endpoint_config.max_receive_alloc as usize,
